@@ -663,6 +663,8 @@ def inline_expression_functions(prog):
         ps = prog.params(f)
         if any(("*" in qtype(p) or "[" in qtype(p)) and "const" not in qtype(p) for p in ps):
             continue        # a pointer the helper could write through; pointers to const are only read
+        if any("*" in qtype(p) or "[" in qtype(p) for p in ps) and len(st) != 1:
+            continue        # a scanner over a string with several exits stays a function: its tests are analysed path by path there
         # the expression may call other candidates (and side-effect-free libc functions) only; checked after the candidate set is known
         cands[name] = (f, ps, e)
     changed = True
